@@ -254,12 +254,13 @@ impl core::ops::Deref for %(t)s {
             r.field_generations@ == %(fg)s,
             r.made_optional_at@ == %(mo)s,
             r.removed_fields@ == %(rem)s,
+            r.evolution_steps@.len() == %(n)d,
             evo_models(r.evolution_steps@) =~= seq![%(evo)s],
     {
         unimplemented!()
     }
 }
-''' % dict(static=static, t=t, steps=steps, v=n - 1, fg=fg, mo=mo, rem=rem, evo=', '.join(evo))
+''' % dict(static=static, t=t, steps=steps, v=n - 1, n=n, fg=fg, mo=mo, rem=rem, evo=', '.join(evo))
 
 
 def live(fields):
@@ -418,6 +419,12 @@ def generate(repo, build_dir, lib_unit_path, out_path):
                 H = dict(gen_metadata=gen_metadata, metadata_steps=metadata_steps, live=live, norm_paths=norm_paths, impl_fn=impl_fn)
                 txt, nl = catgen_enum.gen_enum_v0(d, expanded, H)
                 parts.append('// ================= catalogue entry %s (enum, version-0 cases)\n' % name + txt)
+                lits |= set(nl)
+            elif d['kind'] == 'struct' and d['evolution']:
+                import catgen_evolved
+                H = dict(gen_metadata=gen_metadata, metadata_steps=metadata_steps, live=live, norm_paths=norm_paths, impl_fn=impl_fn, strlit=strlit)
+                txt, nl = catgen_evolved.gen_struct_evolved(d, expanded, H)
+                parts.append('// ================= catalogue entry %s (struct with evolution steps)\n' % name + txt)
                 lits |= set(nl)
             else:
                 skipped.append(name)
